@@ -36,17 +36,22 @@ class ArmorRepairerRegister(BaseRepairRegister):
 
     def get_rps(self, item, dmg_profile, reload):
         rps = 0
+        # Fit without ship has nothing to repair
+        if item is None:
+            return rps
         for rep_item, rep_effect in self.__local_repairers:
             if item is not rep_item._solsys_carrier:
                 continue
             rps += rep_effect.get_rps(rep_item, reload)
-        proj_reg = (
-            self.__fit.solar_system._calculator.
-            _CalculationService__projections)
-        for rep_item, rep_effect in proj_reg.get_tgt_projectors(item):
-            if not isinstance(rep_effect, RemoteArmorRepairEffect):
-                continue
-            rps += rep_effect.get_rps(rep_item, reload)
+        # Fit which does not belong to any solar system receives no remote
+        # repairs
+        solar_system = self.__fit.solar_system
+        if solar_system is not None:
+            proj_reg = solar_system._calculator._CalculationService__projections
+            for rep_item, rep_effect in proj_reg.get_tgt_projectors(item):
+                if not isinstance(rep_effect, RemoteArmorRepairEffect):
+                    continue
+                rps += rep_effect.get_rps(rep_item, reload)
         if dmg_profile is not None:
             rps *= item._get_tanking_efficiency(
                 dmg_profile, item.resists.armor)
